@@ -74,6 +74,21 @@ def random_ctrl(rng, degree, num, family):
             eps = rng.uniform(-1e-3, 1e-3) * size if 0 < i < n - 1 else 0.0
             pts.append((val(a[0] + t * (b[0] - a[0]) + eps), val(a[1] + t * (b[1] - a[1]) - eps)))
         return tuple(pts), None
+    if family == "axis-chord":
+        # the chord is axis-parallel and is an edge of the control-point box (an arch)
+        a0 = rng.uniform(-size, size)
+        lo, hi = sorted((rng.uniform(-size, size), rng.uniform(-size, size)))
+        if hi - lo < 0.2 * size:
+            hi = lo + 0.5 * size
+        pts = []
+        horizontal = rng.random() < 0.5
+        sign = rng.choice([-1, 1])
+        for i in range(n):
+            t = i / (n - 1)
+            along = lo + t * (hi - lo)
+            off = 0.0 if i in (0, n - 1) else sign * rng.uniform(0.2, 0.9) * size
+            pts.append((val(along), val(a0 + off)) if horizontal else (val(a0 + off), val(along)))
+        return tuple(pts), None
     pts = tuple((val(rng.uniform(-size, size)), val(rng.uniform(-size, size))) for _ in range(n))
     return pts, None
 
@@ -101,7 +116,7 @@ def judge_degree(case, rng, degree):
     from shapepy import IntegratePlanar
 
     num = rng.choice(["int", "frac", "float", "float"])
-    family = rng.choice(["generic", "generic", "regular", "regular", "straightish"])
+    family = rng.choice(["generic", "generic", "regular", "regular", "straightish", "axis-chord"])
     ctrl, direction = random_ctrl(rng, degree, num, family)
     if ctrl is None or len(set(ctrl)) < 2:
         case.count("segment:rejected")
@@ -266,6 +281,10 @@ def judge_degree(case, rng, degree):
             if norm > 0:
                 k = Fr(rng.choice([3e-6, 6e-6, 2e-5, 1e-4]) * rng.choice([-1, 1]) / norm)
                 c = (p[0] - d[1] * k, p[1] + d[0] * k)
+        if family == "axis-chord" and rng.random() < 0.5:
+            # a centre exactly on the chord line: between the end points or beyond them
+            lam = Fr(rng.choice([1, 3, 5, 7, 11, -2]), 8)
+            c = (ctrl[0][0] + lam * (ctrl[-1][0] - ctrl[0][0]), ctrl[0][1] + lam * (ctrl[-1][1] - ctrl[0][1]))
         if O.dist_point_curve((ctrl,), c, 1e-10) < 2.5e-6:
             continue
         try:
